@@ -336,7 +336,9 @@ def coq_tie(ctx, H, rng, probes):
     pool = gen.arith_pool(rng, True)
     pairs = [(a, b) for a in pool for b in pool]
     rng.shuffle(pairs)
-    for (da, db) in pairs[:220 * n_small]:
+    hist = [d for d in pool if d[0] == 'expr' or (d[0] == 'semp' and d[4] > (1 << 100))]      # results of operation histories, very long significands
+    hpairs = [(h, h) for h in hist] + [(h, rng.choice(pool)) for h in hist] + [(rng.choice(pool), h) for h in hist]
+    for (da, db) in pairs[:220 * n_small] + hpairs:
         a, b = ops.mk_fpnum(H, da), ops.mk_fpnum(H, db)
         add('arith', 'chk_arith %s %s' % (blit(probes['cmp_inf_fix']), blit(probes['cmp_zero_fix'])), '(%s, %s, %s, %s, %s, %s)' % (fp_lit(ops.comps(a)), fp_lit(ops.comps(b)), fp_lit(ops.comps(a.add(b))), fp_lit(ops.comps(a.sub(b))),
                                                             fp_lit(ops.comps(a.mul(b))), zlit(a.compare(b))), ('arith', da, db))
